@@ -26,6 +26,7 @@
 #include "common.h"
 #include <signal.h>
 #include <limits.h>
+#include <sys/time.h>
 
 #define MAXT 64
 #define BIG 40
@@ -308,7 +309,7 @@ static int parse_nat(const char* s, long* out) {
 int main(int argc, char** argv) {
   v_init();
   if (argc < 2) { fprintf(stderr, "usage: h_tree <opfile>\n"); return 2; }
-  alarm(110);
+  alarm(140);                                    /* whole file, wall clock */
   size_t nl; char** lines = v_read_lines(argv[1], &nl);
   var trees[MAXT]; RefMap refs[MAXT];           /* `trees` lives on main's stack: the collector scans it */
   memset(trees, 0, sizeof trees); memset(refs, 0, sizeof refs);
@@ -317,6 +318,9 @@ int main(int argc, char** argv) {
   for (size_t li = 0; li < nl; li++) {
     if (v_skippable(lines[li])) continue;
     lineno = li + 1;
+    /* watchdog: no single op needs more than a few seconds of CPU; a tree whose links form a cycle makes the library
+       loop forever — the process then dies with SIGPROF and the runner reports the crash */
+    { struct itimerval tv = { {0, 0}, {4, 0} }; setitimer(ITIMER_PROF, &tv, NULL); }
     char* l = strdup(lines[li]);
     split(l);
     long T = -1, S = -1, v = 0, ki = 0; const char* ks = NULL;
